@@ -124,4 +124,62 @@ example : ((decodeMessage none (Descs.params exRe)
       [0x2E, 0x07, 0x55, 0x01, 0x03, 0x09, 0x00, 0x02, 0x08, 0x12, 0x34, 0x02, 0xA1, 0xA2, 0x01, 0xFF, 0xFE, 0x02, 0x01, 0x2C] true).toOption.map
         fun r => pvalEq r.1 (.dict (Descs.decoded exRe))) = some true := by decide +kernel
 
+/-! ### `hext` is necessary (and odxtools behaves like the model there: design_notes/C03.md, "finding")
+    request = [df : DYNAMIC-LENGTH-FIELD, count 8 bits at byte 0, OFFSET 2, items {x}], value tree: no items -/
+def exShort : List Desc :=
+  [.dynLenField "df" none { offset := 2, cntBp := 0, cnt := bU8 "" } (Descs.params [.value (bU8 "x") (.int 0)]) []]
+
+theorem exShort_ok : Descs.ok exShort := by
+  refine ⟨?_, bNames1 _, trivial, by decide⟩
+  refine ⟨?_, trivial⟩
+  refine ⟨trivial, by intro k hk; simp [Descss.comps] at hk, ?_⟩
+  unfold DynLayout.ok
+  refine ⟨?_, ?_, by decide⟩
+  · simp [DynLayout.cntObj, bU8, Obj.ok, Obj.encOk, Obj.sizeOk]
+  · simp [DynLayout.cntObj, bU8, Obj.inRange]
+
+/-- **Counterexample to C03 without `hext`.**  The one-byte PDU `00` is fully described in canonical form — its 8 bits are
+    the count object, which reads 0 = the number of items (`hbits`, `hcover`; `hdisj` trivially) — and strict decode accepts it
+    (value tree: no items; the decoder's cursor ends at OFFSET = 2, behind the end of the message).  But strict encode of that
+    value tree returns `00 00`: an empty dynamic-length field extends the message to OFFSET (`emplace_bytes(b"")`).  The only
+    hypothesis of `C03_reencode_nested` that fails is `hext` (extent 2 > 1). -/
+theorem C03_empty_dynlen_before_offset_counterexample :
+    Descs.ok exShort ∧ Descs.full exShort ∧
+    (∀ e ∈ Descs.layout exShort, ∀ j, j < e.bl → getBit [0x00] (absBit e.pos e.k e.hl (j + e.bp)) = e.raw.testBit j) ∧
+    (∀ a, a < 8 * ([0x00] : Bytes).length → ∃ e ∈ Descs.layout exShort, e.claims a) ∧
+    Descs.extent exShort = 2 ∧
+    ((decodeMessage none (Descs.params exShort) [0x00] true).toOption.map
+      fun r => (pvalEq r.1 (.dict (Descs.decoded exShort)), r.2)) = some (true, 2) ∧
+    (encodeMessage none (Descs.params exShort) (.dict (Descs.decoded exShort)) none true).toOption = some ([0x00, 0x00], 0) :=
+  ⟨exShort_ok, by simp [exShort, Descs.full, Desc.full, Descss.full], by decide +kernel, by decide +kernel, by decide +kernel,
+    by decide +kernel, by decide +kernel⟩
+
+/-- request = [sf : STATIC-FIELD, 1 item of {x}, ITEM-BYTE-SIZE 2], value tree: x = 5 -/
+def exShortSf : List Desc :=
+  [.staticField "sf" none 2 (Descs.params [.value (bU8 "x") (.int 0)]) [[.value (bU8 "x") (.int 5)]]]
+
+theorem exShortSf_ok : Descs.ok exShortSf := by
+  refine ⟨?_, bNames1 _, trivial, by decide⟩
+  refine ⟨?_, trivial⟩
+  simp only [exShortSf, Desc.wf, Descss.wf, Descs.wf, Descss.comps]
+  refine ⟨⟨⟨wfU8 _ _ (by decide) (by decide), trivial⟩, trivial⟩, ?_⟩
+  intro k hk
+  simp only [List.mem_cons, List.mem_nil_iff, or_false] at hk
+  subst hk
+  exact ⟨⟨rfl, bNames1 _, rfl⟩, by decide⟩
+
+/-- **The same with static-field padding.**  The one-byte PDU `05` is fully described (its 8 bits are `x`; the padding entry
+    lies behind the end of the PDU, where all bits read as zero) and strict decode accepts it (cursor 2), but strict encode
+    of the decoded tree returns `05 00`: again only `hext` fails. -/
+theorem C03_static_padding_behind_end_counterexample :
+    Descs.ok exShortSf ∧ Descs.full exShortSf ∧
+    (∀ e ∈ Descs.layout exShortSf, ∀ j, j < e.bl → getBit [0x05] (absBit e.pos e.k e.hl (j + e.bp)) = e.raw.testBit j) ∧
+    (∀ a, a < 8 * ([0x05] : Bytes).length → ∃ e ∈ Descs.layout exShortSf, e.claims a) ∧
+    Descs.extent exShortSf = 2 ∧
+    ((decodeMessage none (Descs.params exShortSf) [0x05] true).toOption.map
+      fun r => (pvalEq r.1 (.dict (Descs.decoded exShortSf)), r.2)) = some (true, 2) ∧
+    (encodeMessage none (Descs.params exShortSf) (.dict (Descs.decoded exShortSf)) none true).toOption = some ([0x05, 0x00], 0) :=
+  ⟨exShortSf_ok, by simp [exShortSf, Descs.full, Desc.full, Descss.full], by decide +kernel, by decide +kernel, by decide +kernel,
+    by decide +kernel, by decide +kernel⟩
+
 end OdxVerif.Codec
